@@ -362,6 +362,9 @@ pub fn rem(lhs: &Value, rhs: &Value) -> Result<Value, Error> {
     match coerce(lhs, rhs, true) {
         Some(CoerceResult::I128(a, b)) => match a.checked_rem_euclid(b) {
             Some(val) => Ok(int_as_value(val)),
+            // `i128::MIN % -1` reports an overflow because of the quotient,
+            // the remainder itself is 0 like for every other dividend
+            None if b == -1 => Ok(int_as_value(0)),
             None => Err(failed_op("%", lhs, rhs)),
         },
         // euclidean like `//` so that (a // b) * b + a % b == a holds
